@@ -254,7 +254,17 @@ func Solve(query string, timeoutSec int, seed int, tmpdir string, tag string, us
 			cmd := exec.CommandContext(c, argv[0], argv[1:]...)
 			out, _ := cmd.CombinedOutput()
 			o := string(out)
-			first := strings.TrimSpace(strings.SplitN(o, "\n", 2)[0])
+			// the verdict is the first line that is not a solver warning (z3 prints e.g.
+			// "WARNING: ... 'if' cannot be used in patterns" before it)
+			first := ""
+			for _, ln := range strings.Split(o, "\n") {
+				ln = strings.TrimSpace(ln)
+				if ln == "" || strings.HasPrefix(ln, "WARNING") {
+					continue
+				}
+				first = ln
+				break
+			}
 			st := "unknown"
 			switch {
 			case first == "unsat":
